@@ -51,6 +51,10 @@ func (e *Engine) intrinsics() map[string]externalFn {
 			return ok && strings.Contains(s, phOpen)
 		},
 		sym + ".Prune": func(fr *frame, args []value) value { fr.i.path.prune = args[0].(bool); return nil },
+		sym + ".And": func(fr *frame, args []value) value { return fr.i.andV(args[0], args[1]) },
+		sym + ".Or": func(fr *frame, args []value) value {
+			return fr.i.notV(fr.i.andV(fr.i.notV(args[0]), fr.i.notV(args[1])))
+		},
 		sym + ".Cut":       func(fr *frame, args []value) value { fr.i.path.rec.Cuts = append(fr.i.path.rec.Cuts, fr.i.hostString(args[0])); fr.i.path.end("cut", fr.i.hostString(args[0])); return nil },
 
 		// ---- internal/bytealg
@@ -254,7 +258,10 @@ func extSymChoice(fr *frame, args []value) value {
 	name := i.hostString(args[0])
 	n := int(i.concInt(args[1]))
 	k := i.path.choose("choice", n)
-	i.path.model["#"+name] = uint64(k)
+	if i.path.choices == nil {
+		i.path.choices = map[string]uint64{}
+	}
+	i.path.choices["#"+name] = uint64(k)
 	return k
 }
 
